@@ -32,6 +32,11 @@ OneA   == {V("b", "True")}
 SimS   == {V("s", "a"), V("i", "7"), V("l", "[1, 2]")}           \* (all value kinds: the random tier of the driver)
 SimA   == {V("s", "p"), V("n", "None")}
 XY == <<"x", "y">>
+\* attribute names that collide with the virtual fields (group.* entities carry an `entity_id` attribute)
+XYE == <<"x", "y", "entity_id">>
+XE  == <<"x", "entity_id">>
+XC  == <<"x", "last_changed">>
+YR  == <<"y", "last_reported">>
 
 Attrs == { AttrSeq[i] : i \in 1..Len(AttrSeq) }
 W == [h |-> h, snap |-> snap, py |-> py, svc |-> svc]
@@ -137,15 +142,28 @@ SnapshotAsValue ==
 TouchOnlyReports ==
   [][ Op.k = "touch" => h'[Op.e] = [h[Op.e] EXCEPT !.lr = clk'] /\ OthersSame(Op.e) /\ snap' = snap ]_vars
 \* a read yields the current value as a snapshot carrying attributes and the virtual fields
+\* (the four virtual fields are the entity's id and HA's stamps even when the entity has attributes of those
+\*  names; such attributes are not reachable through the snapshot)
 ReadIsCurrentSnapshot ==
   [][ Op.k = "read" /\ (Op.via = "get" \/ ToState(Op.e)) =>
-        IF Has(h, Op.e) THEN res' = [k |-> "state", v |-> h[Op.e].v, a |-> h[Op.e].a, id |-> Op.e,
+        IF Has(h, Op.e) THEN res' = [k |-> "state", v |-> h[Op.e].v, a |-> { p \in h[Op.e].a : p[1] \notin Virtual }, id |-> Op.e,
                                      lc |-> h[Op.e].lc, lu |-> h[Op.e].lu, lr |-> h[Op.e].lr]
         ELSE res' = [k |-> "exc", x |-> "NameError"] ]_vars
 MissingRaises ==
   [][ Op.k = "readattr" => (~Has(h, Op.e) => res' = [k |-> "exc", x |-> "NameError"])
                         /\ (Has(h, Op.e) /\ Op.n \notin AttrNames(h[Op.e]) \cup Virtual => res' = [k |-> "exc", x |-> "AttributeError"])
-                        /\ (Has(h, Op.e) /\ Op.n \in AttrNames(h[Op.e]) => res' = [k |-> "val", v |-> AttrVal(h[Op.e], Op.n)]) ]_vars
+                        /\ (Has(h, Op.e) /\ Op.n \in AttrNames(h[Op.e]) \ Virtual => res' = [k |-> "val", v |-> AttrVal(h[Op.e], Op.n)]) ]_vars
+\* DOMAIN.name.<virtual> / state.get("DOMAIN.name.<virtual>") is the virtual field whatever the attributes are;
+\* a captured snapshot's virtual fields likewise (the capture-time id and stamps, never an attribute value);
+\* the attribute of that name stays an ordinary attribute of HA's state machine: state.getattr shows it
+VirtualFieldsWin ==
+  [][ /\ (Op.k = "readattr" /\ Op.n \in Virtual /\ Has(h, Op.e) =>
+            h' = h /\ res' = IF Op.n = "entity_id" THEN [k |-> "id", e |-> Op.e]
+                             ELSE [k |-> "stamp", n |-> IF Op.n = "last_changed" THEN h[Op.e].lc
+                                                         ELSE IF Op.n = "last_updated" THEN h[Op.e].lu ELSE h[Op.e].lr])
+      /\ (Op.k = "capture" /\ Ok => snap'.id = Op.e /\ snap'.lc = h[Op.e].lc /\ snap'.lu = h[Op.e].lu /\ snap'.lr = h[Op.e].lr
+                                     /\ \A p \in snap'.a : p[1] \notin Virtual)
+      /\ (Op.k = "getattr" /\ Has(h, Op.e) => \A n \in Virtual \cap Attrs : (n \in AttrNames(h[Op.e])) = (\E p \in res'.a : p[1] = n)) ]_vars
 AssignKeepsAttributes ==
   [][ Op.k = "assign" /\ ToState(Op.e) =>
         h'[Op.e].v = Str(Op.v) /\ h'[Op.e].a = h[Op.e].a /\ OthersSame(Op.e) ]_vars
@@ -197,10 +215,14 @@ W_NoAttrError      == ~(res.k = "exc" /\ res.x = "AttributeError")
 W_NoKeptValue      == ~(lastAct.k = "set" /\ ~lastAct.hasv /\ lastAct.kw # <<>>)
 W_NoStaleReportRead == ~(lastAct.k = "read" /\ res.k = "state" /\ res.lr # res.lu)
 W_NoSnapUsedAsValue == ~(lastAct.k = "usesnap" /\ res = NoneR)
+\* a virtual field is read while an attribute of the same name exists; a snapshot is taken of such an entity
+W_NoShadowedFieldRead == ~(lastAct.k = "readattr" /\ lastAct.n \in Virtual /\ res.k \in {"id", "stamp"}
+                           /\ lastAct.n \in AttrNames(h[lastAct.e]))
+W_NoShadowedSnapshot == ~(lastAct.k = "read" /\ res.k = "state" /\ \E p \in h[lastAct.e].a : p[1] \in Virtual)
 \* all witnesses in one run (-workers 1, no VIEW): a register per witness, set when its negation is reached
 Witnesses == <<W_SnapNeverStale, W_NoReplaceDrops, W_NoReportedOnly, W_NoShadowedState, W_NoAttrError, W_NoKeptValue,
-              W_NoStaleReportRead, W_NoSnapUsedAsValue>>
-ASSUME \A i \in 1..8 : TLCSet(i, 0)
-WitnessTrack == \A i \in 1..8 : Witnesses[i] \/ TLCSet(i, 1)
-WitnessPost  == \A i \in 1..8 : TLCGet(i) = 1 \/ PrintT("WITNESS-MISSING " \o ToString(i))
+              W_NoStaleReportRead, W_NoSnapUsedAsValue, W_NoShadowedFieldRead, W_NoShadowedSnapshot>>
+ASSUME \A i \in 1..10 : TLCSet(i, 0)
+WitnessTrack == \A i \in 1..10 : Witnesses[i] \/ TLCSet(i, 1)
+WitnessPost  == \A i \in 1..10 : TLCGet(i) = 1 \/ PrintT("WITNESS-MISSING " \o ToString(i))
 =============================================================================
